@@ -204,6 +204,7 @@ def collect_events(rep: Report, tier: str, wd, pool: Pool, gen_cases, extra_sour
                 for kk in ("events", "skipped", "big", "wide"):
                     st[kk] += x.get(kk, 0)
                 st["uncompilable"] += len(x.get("uncompilable", []))
+                rep._uncompilable = getattr(rep, "_uncompilable", []) + [u[0] for u in x.get("uncompilable", [])]
             else:
                 st["events"] += x
     rep.cov["recorded"] = st
